@@ -2,7 +2,7 @@
    ONLY statements, each closed by [exact] of a lemma proved in proofs/, followed by Print Assumptions.
    The value type V is arbitrary (values are placed, never computed with): the theorems hold for
    int, float, complex and bool fields alike. *)
-From DF Require Import Prelude Constants_gen Region Mesh FieldCore QLemmas ListLemmas C01_axis C01_nd C01_lattice C02_core C02_geom.
+From DF Require Import Prelude Constants_gen Region Mesh FieldCore QLemmas ListLemmas C01_axis C01_nd C01_lattice C02_core C02_geom CheckSound Check_C02 C02_sound.
 Open Scope Q_scope.
 
 (* --- number: broadcast to every cell and component; a non-zero number is rejected for vector fields --- *)
@@ -378,3 +378,206 @@ Example C02_nonvacuous :
   (exists a, as_array_fun m 2 (fun p => p) = OK a /\ qlist_eqb (a [3; 0]%Z) [7 # 2; (-3) # 4] = true).
 Proof. exact nonvacuous_field. Qed.
 Print Assumptions C02_nonvacuous.
+
+(* ===== the tie, proved: soundness of the correspondence checker check_C02 =====
+   A shard case that evaluates to true certifies that the OBSERVED output is the model's value on the
+   recorded input: [cv_eq] (both components equal as rationals) in the exact regime, [cv_near scale]
+   (within rel_tol * scale per component) in the scale regime; [cvl_rel exact scale] is the list form. *)
+
+(* the mesh the checker builds from a recorded description is well-formed, so every theorem above stated
+   for wf_mesh applies to it (the bound on the dimension concerns the default axis names only) *)
+Theorem C02_check_mesh_wf : forall p1 p2 n_ tf_ dims_ subs_ m,
+  build_mesh (MeshD p1 p2 n_ tf_ dims_ subs_) = OK m -> 0 <= tf_ ->
+  (dims_ = None -> (length p1 <= 10)%nat) -> wf_mesh m.
+Proof. exact build_mesh_wf. Qed.
+Print Assumptions C02_check_mesh_wf.
+Theorem C02_check_field_wf : forall p1 p2 n_ tf_ dims_ subs_ nv s vd f,
+  mk (MeshD p1 p2 n_ tf_ dims_ subs_) nv s vd = OK (OK f) -> 0 <= tf_ ->
+  (dims_ = None -> (length p1 <= 10)%nat) ->
+  wf_mesh (fmesh f) /\ fnv f = nv /\ build_mesh (MeshD p1 p2 n_ tf_ dims_ subs_) = OK (fmesh f).
+Proof. exact mk_wf. Qed.
+Print Assumptions C02_check_field_wf.
+
+Theorem C02_check_init_sound : forall exact sc d nv s o,
+  check_C02 (CInit exact sc d nv s (Some o)) = true ->
+  exists f, mk d nv s None = OK (OK f) /\
+    length o = length (flat (fmesh f) (farr f)) /\
+    (cvl_rel exact sc (flat (fmesh f) (farr f)) o \/
+     exists sd snv sdata src, s = VSimple (VField sd snv sdata) /\ build_src sd snv sdata = OK src /\
+                              field_adm (fmesh f) nv src o = true).
+Proof. exact check_init_sound. Qed.
+Print Assumptions C02_check_init_sound.
+Theorem C02_check_init_plain_sound : forall exact sc d nv s o,
+  check_C02 (CInit exact sc d nv s (Some o)) = true ->
+  (forall sd snv sdata, s <> VSimple (VField sd snv sdata)) ->
+  exists f, mk d nv s None = OK (OK f) /\ cvl_rel exact sc (flat (fmesh f) (farr f)) o.
+Proof. exact check_init_plain_sound. Qed.
+Print Assumptions C02_check_init_plain_sound.
+Theorem C02_check_init_reject_sound : forall exact sc d nv s,
+  check_C02 (CInit exact sc d nv s None) = true -> exists e, mk d nv s None = OK (Err e).
+Proof. exact check_init_reject_sound. Qed.
+Print Assumptions C02_check_init_reject_sound.
+Theorem C02_check_assign_sound : forall d nv s0 s1 obs_ok obs_after,
+  check_C02 (CAssign d nv s0 s1 obs_ok obs_after) = true ->
+  exists f sp1, mk d nv s0 None = OK (OK f) /\ to_spec s1 = OK sp1 /\
+    is_ok (set_array cv0 cv_is_zero f sp1) = obs_ok /\
+    Forall2 cv_eq (flat (fmesh (assign cv0 cv_is_zero f sp1)) (farr (assign cv0 cv_is_zero f sp1))) obs_after.
+Proof. exact check_assign_sound. Qed.
+Print Assumptions C02_check_assign_sound.
+Theorem C02_check_sample_sound : forall exact sc d nv s p o,
+  check_C02 (CSample exact sc d nv s p (Some o)) = true ->
+  exists f v, mk d nv s None = OK (OK f) /\ sample f p = OK v /\ cvl_rel exact sc v o.
+Proof. exact check_sample_sound. Qed.
+Print Assumptions C02_check_sample_sound.
+Theorem C02_check_sample_reject_sound : forall exact sc d nv s p,
+  check_C02 (CSample exact sc d nv s p None) = true ->
+  exists f e, mk d nv s None = OK (OK f) /\ sample f p = Err e.
+Proof. exact check_sample_reject_sound. Qed.
+Print Assumptions C02_check_sample_reject_sound.
+Theorem C02_check_component_sound : forall d nv s vd label o,
+  check_C02 (CComp d nv s vd label (Some o)) = true ->
+  exists f g, mk d nv s vd = OK (OK f) /\ component cv0 f label = OK g /\ fnv g = 1%nat /\
+    Forall2 cv_eq (flat (fmesh g) (farr g)) o.
+Proof. exact check_comp_sound. Qed.
+Print Assumptions C02_check_component_sound.
+Theorem C02_check_component_reject_sound : forall d nv s vd label,
+  check_C02 (CComp d nv s vd label None) = true ->
+  exists f e, mk d nv s vd = OK (OK f) /\ component cv0 f label = Err e.
+Proof. exact check_comp_reject_sound. Qed.
+Print Assumptions C02_check_component_reject_sound.
+Theorem C02_check_iteration_sound : forall d nv s obs,
+  check_C02 (CIter d nv s obs) = true ->
+  exists f, mk d nv s None = OK (OK f) /\
+    Forall2 (fun r o => exists v, r = OK v /\ Forall2 cv_eq v o) (iterate f) obs.
+Proof. exact check_iter_sound. Qed.
+Print Assumptions C02_check_iteration_sound.
+(* [r_rel r2max r r2]: 0 <= r and |r*r - r2| <= rel_tol * r2max *)
+Theorem C02_check_line_sound : forall d nv s p1 p2 k pts vals rs,
+  check_C02 (CLine d nv s p1 p2 k (Some (pts, vals, rs))) = true ->
+  exists f l, mk d nv s None = OK (OK f) /\ field_line f p1 p2 k = OK l /\
+    Forall2 (Forall2 Qeq) (l_points l) pts /\
+    Forall2 (Forall2 cv_eq) (l_values l) vals /\
+    Forall2 (r_rel (dist2 p1 p2)) rs (l_r2 l).
+Proof. exact check_line_sound. Qed.
+Print Assumptions C02_check_line_sound.
+Theorem C02_check_line_reject_sound : forall d nv s p1 p2 k,
+  check_C02 (CLine d nv s p1 p2 k None) = true ->
+  exists f e, mk d nv s None = OK (OK f) /\ field_line f p1 p2 k = Err e.
+Proof. exact check_line_reject_sound. Qed.
+Print Assumptions C02_check_line_reject_sound.
+Theorem C02_check_line_scale_sound : forall tol d nv s p1 p2 k opts ovals,
+  check_C02 (CLineS tol d nv s p1 p2 k (Some (opts, ovals))) = true ->
+  exists f pts, mk d nv s None = OK (OK f) /\ mesh_line (fmesh f) p1 p2 k = OK pts /\
+    Forall2 (Forall2 (fun a b => Qabs (a - b) <= tol * 1)) pts opts /\
+    Forall2 (fun q v => length q = length (pmin (reg (fmesh f))) /\
+                        exists j, In j (cands_tol tol (fmesh f) q) /\ Forall2 cv_eq (farr f j) v) opts ovals.
+Proof. exact check_line_scale_sound. Qed.
+Print Assumptions C02_check_line_scale_sound.
+(* the source-field alternative of CInit: every observed cell row is the stored value of a candidate
+   source cell, and per axis every candidate's closed extent contains the point *)
+Theorem C02_check_source_adm_sound : forall m nv src obs,
+  field_adm m nv src obs = true ->
+  (length obs = length (indices_c (n m)) * nv)%nat /\
+  Forall2 (fun i row => exists j, In j (cands (fmesh src) (centre m i)) /\ Forall2 cv_eq (farr src j) row)
+          (indices_c (n m)) (chunks nv (length (indices_c (n m))) obs).
+Proof. exact field_adm_sound. Qed.
+Print Assumptions C02_check_source_adm_sound.
+Theorem C02_check_source_candidate_contains : forall lo hi k q i, lo < hi -> (0 < k)%Z -> lo <= q -> q <= hi ->
+  let c := cell_of lo hi k in
+  In i (cand1 lo c k q) ->
+  (0 <= i < k)%Z /\ lo + inject_Z i * c <= q /\ q <= lo + (inject_Z i + 1) * c.
+Proof. exact cand1_contains. Qed.
+Print Assumptions C02_check_source_candidate_contains.
+(* a whole shard: no failing index means every case was accepted *)
+Theorem C02_shard_verdict : forall cases k,
+  failing k (map check_C02 cases) = [] -> forall c, In c cases -> check_C02 c = true.
+Proof. exact (failing_nil_all check_C02). Qed.
+Print Assumptions C02_shard_verdict.
+
+(* ===== transfer: the C02 statements about the OBSERVED output itself ===== *)
+(* the observed field(point) is the stored value of the cell point2index assigns to the point *)
+Theorem C02_accepted_sample_cell : forall exact sc d nv s p o,
+  check_C02 (CSample exact sc d nv s p (Some o)) = true ->
+  exists f i, mk d nv s None = OK (OK f) /\ point2index (fmesh f) p = OK i /\ cvl_rel exact sc (farr f i) o.
+Proof. exact accepted_sample_cell. Qed.
+Print Assumptions C02_accepted_sample_cell.
+Theorem C02_accepted_sample_reject : forall exact sc d nv s p,
+  check_C02 (CSample exact sc d nv s p None) = true ->
+  exists f, mk d nv s None = OK (OK f) /\ is_ok (point2index (fmesh f) p) = false.
+Proof. exact accepted_sample_reject. Qed.
+Print Assumptions C02_accepted_sample_reject.
+(* the observed list(field) is the stored cell values in x-fastest order, on a well-formed mesh *)
+Theorem C02_accepted_iteration : forall p1 p2 n_ tf_ dims_ subs_ nv s obs,
+  check_C02 (CIter (MeshD p1 p2 n_ tf_ dims_ subs_) nv s obs) = true ->
+  0 <= tf_ -> (dims_ = None -> (length p1 <= 10)%nat) ->
+  exists f, mk (MeshD p1 p2 n_ tf_ dims_ subs_) nv s None = OK (OK f) /\ wf_mesh (fmesh f) /\
+    Forall2 (fun i o => Forall2 cv_eq (farr f i) o) (indices_xfast (n (fmesh f))) obs.
+Proof. exact accepted_iteration. Qed.
+Print Assumptions C02_accepted_iteration.
+(* an observed rejected assignment left the observed array as it was ... *)
+Theorem C02_accepted_reject_keeps_state : forall d nv s0 s1 obs_after,
+  check_C02 (CAssign d nv s0 s1 false obs_after) = true ->
+  exists f, mk d nv s0 None = OK (OK f) /\ Forall2 cv_eq (flat (fmesh f) (farr f)) obs_after.
+Proof. exact accepted_reject_keeps_state. Qed.
+Print Assumptions C02_accepted_reject_keeps_state.
+(* ... and an observed accepted one holds _as_array of the new value on the same mesh and nvdim *)
+Theorem C02_accepted_assign_replaces : forall d nv s0 s1 obs_after,
+  check_C02 (CAssign d nv s0 s1 true obs_after) = true ->
+  exists f sp1 a, mk d nv s0 None = OK (OK f) /\ to_spec s1 = OK sp1 /\
+    as_array cv0 cv_is_zero (fmesh f) (fnv f) sp1 = OK a /\
+    Forall2 cv_eq (flat (fmesh f) a) obs_after.
+Proof. exact accepted_assign_replaces. Qed.
+Print Assumptions C02_accepted_assign_replaces.
+(* callable value: the observed array holds, cell by cell in C order, the callable at the cell centre *)
+Theorem C02_accepted_init_function : forall exact sc d nv fn o,
+  check_C02 (CInit exact sc d nv (VSimple (VFun fn)) (Some o)) = true ->
+  exists f, mk d nv (VSimple (VFun fn)) None = OK (OK f) /\ build_mesh d = OK (fmesh f) /\
+    cvl_rel exact sc (flat_map (fun i => eval_fun fn (centre (fmesh f) i)) (indices_c (n (fmesh f)))) o.
+Proof. exact accepted_init_function. Qed.
+Print Assumptions C02_accepted_init_function.
+(* number: it was admissible (scalar field or zero) and every observed entry is the number *)
+Theorem C02_accepted_init_constant : forall d nv v o,
+  check_C02 (CInit true 0 d nv (VSimple (VConst v)) (Some o)) = true ->
+  ((nv <= 1)%nat \/ cv_is_zero v = true) /\ Forall (cv_eq v) o.
+Proof. exact accepted_init_constant. Qed.
+Print Assumptions C02_accepted_init_constant.
+(* component: the observed scalar array holds component k = vdims.index(label) of every cell *)
+Theorem C02_accepted_component : forall d nv s vd label o,
+  check_C02 (CComp d nv s vd label (Some o)) = true ->
+  exists f l k, mk d nv s vd = OK (OK f) /\ fvdims f = Some l /\ index_of label l = Some k /\
+    Forall2 cv_eq (map (fun i => nth k (farr f i) cv0) (indices_c (n (fmesh f)))) o.
+Proof. exact accepted_component. Qed.
+Print Assumptions C02_accepted_component.
+Theorem C02_accepted_component_unknown : forall d nv s vd label,
+  check_C02 (CComp d nv s vd label None) = true ->
+  exists f, mk d nv s vd = OK (OK f) /\
+    (fvdims f = None \/ exists l, fvdims f = Some l /\ index_of label l = None).
+Proof. exact accepted_component_unknown. Qed.
+Print Assumptions C02_accepted_component_unknown.
+(* line: the observed points are the k equidistant points and each observed value is the stored value
+   of the cell point2index assigns to its point *)
+Theorem C02_accepted_line : forall d nv s p1 p2 k pts vals rs,
+  check_C02 (CLine d nv s p1 p2 k (Some (pts, vals, rs))) = true ->
+  exists f, mk d nv s None = OK (OK f) /\ (2 <= k)%Z /\
+    contains_pt (reg (fmesh f)) p1 = true /\ contains_pt (reg (fmesh f)) p2 = true /\
+    Forall2 (Forall2 Qeq) (line_points p1 p2 k) pts /\
+    Forall2 (fun p v => exists i w, point2index (fmesh f) p = OK i /\ w = farr f i /\ Forall2 cv_eq w v)
+            (line_points p1 p2 k) vals /\
+    length pts = Z.to_nat k /\ length vals = Z.to_nat k.
+Proof. exact accepted_line. Qed.
+Print Assumptions C02_accepted_line.
+(* non-vacuity: concrete accepted cases on a 4 x 2 mesh, value 1 + x + 2y *)
+Example C02_accepted_sample_instance :
+  check_C02 (CSample true 0 demo_mesh 1 (VSimple (VFun demo_fun)) [3; 1] (Some [(15 # 2, 0)])) = true.
+Proof. exact accepted_sample_instance. Qed.
+Print Assumptions C02_accepted_sample_instance.
+Example C02_accepted_init_instance :
+  check_C02 (CInit true 0 demo_mesh 1 (VSimple (VFun demo_fun))
+               (Some [(5 # 2, 0); (9 # 2, 0); (7 # 2, 0); (11 # 2, 0); (9 # 2, 0); (13 # 2, 0); (11 # 2, 0); (15 # 2, 0)])) = true.
+Proof. exact accepted_init_instance. Qed.
+Print Assumptions C02_accepted_init_instance.
+Example C02_accepted_iteration_instance :
+  check_C02 (CIter demo_mesh 1 (VSimple (VConst (3, 1)))
+               [[(3, 1)]; [(3, 1)]; [(3, 1)]; [(3, 1)]; [(3, 1)]; [(3, 1)]; [(3, 1)]; [(3, 1)]]) = true.
+Proof. exact accepted_iteration_instance. Qed.
+Print Assumptions C02_accepted_iteration_instance.
